@@ -87,8 +87,8 @@ pub struct Case {
 }
 
 pub fn decode(bytes: &[u8]) -> Case {
-    let mut s = Stream::new(bytes);
-    let built = gen_built(&mut s, &GenCfg::small());
+    let (mut s, mut gs) = crate::stream::split(bytes, 160);
+    let built = gen_built(&mut gs, &GenCfg::small());
     let info = &built.info;
     let prof = gen_profile(&mut s, info);
     let mut input = glue::named_input(info, &prof);
@@ -313,5 +313,6 @@ pub fn prop() -> Prop {
         assumptions: &["weights within 1e-300 .. 1e100 (no overflow of a sum of weights)", "normalised probabilities compared within 2 ulp"],
         post: None,
         watchdog_s: 60,
+        shrink_iters: 3000,
     }
 }
